@@ -1,9 +1,13 @@
 /-
 C01 for PM stage 2a — pagination with out-of-flow children (absolutely positioned boxes, full-width
 floats, `clear`) conserves the content of the flow; out-of-flow boxes are continued page after page from
-where they were cut — and are lost at the end of the document / rendered twice in the situations kept as
-witnesses in `Witness/C01Oof.lean` (known findings `out-of-flow-lost-at-document-end`,
-`float-fragment-duplicated`, and the new `absolute-placeholder-survives-abort`).
+where they were cut — and are lost at the end of the document (the open finding
+`out-of-flow-lost-at-document-end`, witness in `Witness/C01Oof.lean`). The two duplication findings
+(`float-fragment-duplicated`, `absolute-placeholder-survives-abort`) were repaired in /repo (cdccac3,
+e3ac9f0): the model follows, their witnesses are regression theorems now, and §4 below states, for all
+inputs, the two facts the repairs established (`cancelled_block_leaves_nothing`, `only_children_continued`).
+A new finding of the same family, reached by widening the grammar to nested floats, is kept as witness:
+`Witness.nested_float_in_postponed_float_duplicated`.
 
 1. Embedding: on stage-1 documents the extended model *is* stage 1 (so C01–C05 stage-1 theorems hold for
    the static fragment of the extended grammar).
@@ -221,6 +225,7 @@ theorem continuation_segment (c : Ctx) (rootTop : Rat) (acc : World × List OFra
           unfold floatDone at hfd
           simp only [hfr, Prod.mk.injEq] at hfd
           rw [← hfd.2]
+          rfl
         simp only [List.map_append, hw']
         cases (layoutBox c e.box 0 (floatY acc.1.shapes e.box.st.clear rootTop) 0 (some e.resume) false true []
           { acc.1 with shapes := [] }).resume <;> simp
@@ -262,6 +267,63 @@ theorem continued_next_page (d : Doc) (fuel index : Nat) (resume : Option Resume
         | zero => simp [makeAllPages] at hps
         | succ k => exact ⟨k, hps⟩
       · cases h
+
+/-! ### 4. what the repairs e3ac9f0 and cdccac3 made true, for all inputs -/
+
+/-- **A cancelled block leaves nothing behind** (repair e3ac9f0): when the children loop of
+`block_container_layout` aborts, no placeholder and no cut float of the children laid out so far stays in
+`absolute_boxes` / `context.broken_out_of_flow` — whatever the children, at any depth. (False before the
+repair: `Witness.absolute_placeholder_removed_on_abort` is the former counterexample.) -/
+theorem cancelled_block_leaves_nothing (c : Ctx) (st : OStyle) (p : Prep) (pie : Bool) (id idx : Nat)
+    (page : String) (s : KidsLoop) :
+    let r := finishBlock c st p pie id idx (.aborted page s)
+    r.frag = none ∧ (∀ e ∈ r.w.absL, e.ser ∉ fragSersList s.newChildren) ∧
+      (∀ e ∈ r.w.broken, e.ser ∉ fragSersList s.newChildren) ∧
+      (∀ e ∈ r.w.absL, e ∈ s.w.absL) ∧ (∀ e ∈ r.w.broken, e ∈ s.w.broken) := by
+  simp only [finishBlock, abortResult, World.remove]
+  refine ⟨trivial, ?_, ?_, ?_, ?_⟩ <;> intro e he <;> simp only [List.mem_filter] at he
+  · simpa using he.2
+  · simpa using he.2
+  · exact he.1
+  · exact he.1
+
+/-- **Only children are continued** (repair cdccac3): what a block container hands over to
+`context.broken_out_of_flow` are cut floats that are still among its children — a float dropped from the page
+by `find_earlier_page_break` is not continued (it is laid out again in full). (False before the repair:
+`Witness.float_fragment_not_duplicated` is the former counterexample.) -/
+theorem only_children_continued (kids : List OFrag) (localBroken : List Broken) :
+    (∀ e ∈ keptBroken kids localBroken, e ∈ localBroken ∧ ∃ f ∈ kids, f.ser = e.ser) ∧
+    (∀ e ∈ localBroken, (∃ f ∈ kids, f.ser = e.ser) → e ∈ keptBroken kids localBroken) := by
+  constructor
+  · intro e he
+    simp only [keptBroken, List.mem_filter, List.any_eq_true, beq_iff_eq] at he
+    exact he
+  · intro e he hf
+    simp only [keptBroken, List.mem_filter, List.any_eq_true, beq_iff_eq]
+    exact ⟨he, hf⟩
+
+/-- … and that is what `finishContainer` registers: the world's `broken_out_of_flow` grows by exactly
+`keptBroken`, or — a fragmented box that must not be — loses every entry of the children. -/
+theorem finishContainer_broken (c : Ctx) (st : OStyle) (b : BoxSt) (pie : Bool) (bs : Rat) (cwc dbd : Bool)
+    (resume : Option Resume) (posY : Rat) (adjL cur : List Rat) (curIsL : Bool) (np : NextPage) (hasKids : Bool)
+    (pageEnd : String) (kids : List OFrag) (lb : List Broken) (w : World) (mk : Geo → OFrag) :
+    let r := finishContainer c st b pie bs cwc dbd resume posY adjL cur curIsL np hasKids pageEnd kids lb w mk
+    (r.frag.isSome = true → r.w.broken = w.broken ++ keptBroken kids lb) ∧
+    (r.frag = none → ∀ e ∈ r.w.broken, e ∈ w.broken ∧ e.ser ∉ fragSersList kids) := by
+  simp only [finishContainer]
+  split
+  · refine ⟨by simp, fun _ e he => ?_⟩
+    simp only [World.remove, List.mem_filter] at he
+    exact ⟨he.1, by simpa using he.2⟩
+  · exact ⟨fun _ => rfl, by simp⟩
+
+/-! Non-vacuity: a cut float (serial 7) that is no longer a child is not kept; one that is, is. -/
+example :
+    let e : Broken := { ser := 7, box := .para 2 6 10 (Witness.floated Witness.st0), idx := 0,
+                        resume := .node 0 (some (.line 3)), oof := rfl }
+    (keptBroken [] [e]).length = 0 ∧
+      (keptBroken [.para 7 2 1 (Witness.floated Witness.st0) 6 dummyGeo [(0, 0)]] [e]).length = 1 := by
+  decide +kernel
 
 /-! ### non-vacuity
 
